@@ -49,15 +49,69 @@ static void *cnt_malloc(size_t n)
   return p;
 }
 
+/* OUT-PARAMETER POISON: every decoding entry point is called with its out-parameters pre-set to
+ * the address of this block, which the driver owns.  The block is poisoned for ASan (a read through
+ * the pointer is a use-after-poison report attributed to the case) and known to the allocator
+ * wrappers (handing it to free()/realloc() is counted: "<k> P <n>").  Callers that reuse a variable
+ * or leave it uninitialised are entitled to both: the functions must not look at what the variable
+ * held. */
+#if defined(__has_feature)
+#  if __has_feature(address_sanitizer)
+#    include <sanitizer/asan_interface.h>
+#    define POISON_REGION(p, n)   __asan_poison_memory_region((p), (n))
+#    define UNPOISON_REGION(p, n) __asan_unpoison_memory_region((p), (n))
+#  endif
+#endif
+#ifndef POISON_REGION
+#  define POISON_REGION(p, n)   ((void)0)
+#  define UNPOISON_REGION(p, n) ((void)0)
+#endif
+#define POISON_LEN 512
+static unsigned char *g_poison;
+static int            poison_hits;
+#define POISON(T) ((T)(void *)g_poison)
+
+static void poison_init(void)
+{
+  g_poison = malloc(POISON_LEN);
+  memset(g_poison, 0xA5, POISON_LEN);
+  POISON_REGION(g_poison, POISON_LEN);
+}
+
+/* the block must still hold its pattern */
+static int poison_intact(void)
+{
+  size_t i;
+  int    ok = 1;
+  UNPOISON_REGION(g_poison, POISON_LEN);
+  for (i = 0; i < POISON_LEN; i++) {
+    if (g_poison[i] != 0xA5) {
+      ok = 0;
+      g_poison[i] = 0xA5;
+    }
+  }
+  POISON_REGION(g_poison, POISON_LEN);
+  return ok;
+}
+
 static void cnt_free(void *p)
 {
+  if (p != NULL && p == (void *)g_poison) {
+    poison_hits++;
+    return;
+  }
   if (p) live_blocks--;
   free(p);
 }
 
 static void *cnt_realloc(void *p, size_t n)
 {
-  void *q = realloc(p, n);
+  void *q;
+  if (p != NULL && p == (void *)g_poison) {
+    poison_hits++;
+    return NULL;
+  }
+  q = realloc(p, n);
   if (p == NULL && q != NULL) live_blocks++;
   if (p != NULL && n == 0 && q == NULL) live_blocks--;
   return q;
@@ -213,10 +267,13 @@ static void write_reparse(long k, const ares_dns_record_t *rec, unsigned int fla
 {
   size_t             wlen = 0, xlen = 0;
   unsigned char     *wbuf = NULL, *xbuf = NULL;
-  ares_dns_record_t *rec2 = NULL;
+  ares_dns_record_t *rec2 = POISON(ares_dns_record_t *);
   ares_status_t      wst, st2, xst;
 
+  wbuf = POISON(unsigned char *);
+  xbuf = POISON(unsigned char *);
   wst = ares_dns_write(rec, &wbuf, &wlen);
+  if (wbuf == POISON(unsigned char *)) wbuf = NULL; /* left alone on failure */
   printf("%ld W %d ", k, (int)wst);
   if (wst == ARES_SUCCESS) {
     puthex(wbuf, wlen);
@@ -226,11 +283,14 @@ static void write_reparse(long k, const ares_dns_record_t *rec, unsigned int fla
       printf(" ");
       dump_rec(rec2);
       xst = ares_dns_write(rec2, &xbuf, &xlen);
+      if (xbuf == POISON(unsigned char *)) xbuf = NULL;
       printf("\n%ld X %d ", k, (int)xst);
       if (xst == ARES_SUCCESS) puthex(xbuf, xlen);
     }
   }
   printf("\n");
+  if (xbuf == POISON(unsigned char *)) xbuf = NULL;
+  if (rec2 == POISON(ares_dns_record_t *)) rec2 = NULL;
   ares_free_string(wbuf);
   ares_free_string(xbuf);
   ares_dns_record_destroy(rec2);
@@ -379,7 +439,7 @@ static void run_build(long k, const char *head, char *body)
   }
   if (st == ARES_SUCCESS && pre >= 0) {
     ares_buf_t          *buf = ares_buf_create();
-    ares_dns_record_t   *rec2 = NULL;
+    ares_dns_record_t   *rec2 = POISON(ares_dns_record_t *);
     ares_status_t        ts, vs;
     const unsigned char *p;
     size_t               blen = 0, start;
@@ -411,6 +471,7 @@ static void run_build(long k, const char *head, char *body)
     }
     printf("\n");
     ares_buf_destroy(buf);
+    if (rec2 == POISON(ares_dns_record_t *)) rec2 = NULL;
     ares_dns_record_destroy(rec2);
   }
   ares_dns_record_destroy(rec);
@@ -421,13 +482,14 @@ static void run_tcp(long k, long nframes, long consume, const char *hex)
 {
   size_t             len = 0, start, blen = 0;
   unsigned char     *bytes = unhex(hex, &len);
-  ares_dns_record_t *rec = NULL, *rec2 = NULL;
+  ares_dns_record_t *rec = POISON(ares_dns_record_t *), *rec2 = POISON(ares_dns_record_t *);
   ares_status_t      st, ts = ARES_SUCCESS, vs;
   ares_buf_t        *buf = NULL;
   const unsigned char *p;
   long               i;
 
   st = ares_dns_parse(bytes, len, 0, &rec);
+  if (rec == POISON(ares_dns_record_t *)) rec = NULL;
   printf("%ld R %d", k, (int)st);
   if (st == ARES_SUCCESS) {
     printf(" ");
@@ -470,6 +532,7 @@ static void run_tcp(long k, long nframes, long consume, const char *hex)
     }
     ares_buf_destroy(buf);
   }
+  if (rec2 == POISON(ares_dns_record_t *)) rec2 = NULL;
   ares_dns_record_destroy(rec);
   ares_dns_record_destroy(rec2);
   free(bytes);
@@ -480,9 +543,9 @@ static void run_create_query(long k, long dnsclass, long type, long id, long rd,
 {
   size_t             nl = 0;
   unsigned char     *name = unhex(namehex, &nl);
-  unsigned char     *qbuf = NULL;
+  unsigned char     *qbuf = POISON(unsigned char *);
   int                qlen = 0, st;
-  ares_dns_record_t *rec = NULL;
+  ares_dns_record_t *rec = POISON(ares_dns_record_t *);
 
   name = realloc(name, nl + 1);
   name[nl] = 0;
@@ -491,6 +554,7 @@ static void run_create_query(long k, long dnsclass, long type, long id, long rd,
   } else {
     st = ares_create_query((char *)name, (int)dnsclass, (int)type, (unsigned short)id, (int)rd, &qbuf, &qlen, (int)maxudp);
   }
+  if (qbuf == POISON(unsigned char *)) qbuf = NULL; /* left alone on failure */
   printf("%ld R %d ", k, st);
   if (st == ARES_SUCCESS && qbuf != NULL) {
     ares_status_t vs;
@@ -505,6 +569,7 @@ static void run_create_query(long k, long dnsclass, long type, long id, long rd,
     printf("RESULT-ON-ERROR");
   }
   printf("\n");
+  if (rec == POISON(ares_dns_record_t *)) rec = NULL;
   ares_free_string(qbuf);
   ares_dns_record_destroy(rec);
   free(name);
@@ -514,10 +579,11 @@ static void run_parse(long k, unsigned int flags, const char *hex)
 {
   size_t             len = 0;
   unsigned char     *bytes = unhex(hex, &len);
-  ares_dns_record_t *rec = NULL;
+  ares_dns_record_t *rec = POISON(ares_dns_record_t *);
   ares_status_t      st;
 
   st = ares_dns_parse(bytes, len, flags, &rec);
+  if (rec == POISON(ares_dns_record_t *)) rec = NULL; /* left alone */
   printf("%ld R %d", k, (int)st);
   if (st == ARES_SUCCESS) {
     printf(" ");
@@ -540,7 +606,7 @@ static void run_expand(long k, int is_name, long enc, long alen, int want, const
   unsigned char *blk;
   long           enclen = -7;
   int            st;
-  char          *s = NULL;
+  char          *s = POISON(char *);
 
   /* the block the library is told about has exactly alen octets (when alen > 0) */
   if (alen > 0 && (size_t)alen <= len) {
@@ -556,6 +622,7 @@ static void run_expand(long k, int is_name, long enc, long alen, int want, const
   } else {
     st = ares_expand_string(blk + enc, blk, (int)alen, want ? (unsigned char **)&s : NULL, &enclen);
   }
+  if (s == POISON(char *)) s = NULL; /* not asked for, or left alone on failure */
   printf("%ld R %d %ld ", k, st, st == ARES_SUCCESS ? enclen : 0);
   if (s != NULL) {
     if (is_name) {
@@ -606,6 +673,13 @@ static void run_case(long k, char *line)
     printf("%ld L %ld\n", k, live_blocks - before);
     leaks_reported = 1;
   }
+  if (poison_hits != 0) {
+    printf("%ld P freed %d\n", k, poison_hits);
+    poison_hits = 0;
+  }
+  if (!poison_intact()) {
+    printf("%ld P written\n", k);
+  }
 }
 
 static void run_case1(long k, char *line)
@@ -638,6 +712,7 @@ static void run_case1(long k, char *line)
 int main(int argc, char **argv)
 {
   int rc;
+  poison_init();
   ares_library_init_mem(ARES_LIB_INIT_ALL, cnt_malloc, cnt_free, cnt_realloc);
   signal(SIGALRM, on_alarm);
   rc = drv_main(argc, argv, run_case);
